@@ -6,7 +6,8 @@ From L2 Require Import Model Base Own.
 #[global] Unset Lia Cache.
 
 Definition fresh (j : job) : bool := match j with JFut _ Waiting _ => false | _ => true end.
-Definition susp (j : job) : option nat := match j with JFut _ Waiting (PAwait e :: _) => Some e | _ => None end.
+Definition susp (j : job) : option nat :=
+  match j with JFut _ Waiting (PAwait e :: _) | JFut _ Waiting (PAwaitEither e _ :: _) => Some e | _ => None end.
 Definition jop (j : job) : nat := match j with JPlain o | JFut o _ _ | JSync o _ _ => o end.
 Definition wop (j : job) : option nat := match j with JFut o Waiting _ => Some o | _ => None end.
 (* the job a frame holds; a sync_immediate closure counts as a (virtual) plain job in hand *)
@@ -133,7 +134,7 @@ Qed.
 
 Lemma fresh_wop j : fresh j = true -> wop j = None. Proof. by destruct j as [| ? [] ?|]. Qed.
 Lemma susp_wop j : is_Some (susp j) -> exists o, wop j = Some o.
-Proof. destruct j as [| o [] [|[] ?]|]; cbn; intros [? ?]; try done. by exists o. Qed.
+Proof. destruct j as [| o [] [|[] ?]|]; cbn; intros [? ?]; try done; by exists o. Qed.
 Lemma allfresh_app l j : allfresh l -> fresh j = true -> allfresh (l ++ [j]).
 Proof. unfold allfresh. intros H1 H2. rewrite forallb_app, H1. cbn. by rewrite H2. Qed.
 Lemma allfresh_tail_app l j : allfresh (tail l) -> fresh j = true -> allfresh (tail (l ++ [j])).
